@@ -1994,27 +1994,32 @@ func (ls *LState) Resume(th *LState, fn *LFunction, args ...LValue) (ResumeState
 	}
 	th.Parent = ls
 	ls.G.CurrentThread = th
+	var setup func()
 	if !isstarted {
 		cf := th.stack.Last()
 		th.currentFrame = cf
 		th.SetTop(0)
-		for _, arg := range args {
-			th.Push(arg)
-		}
-		cf.NArgs = len(args)
-		th.initCallFrame(cf)
 		th.Panic = panicWithoutTraceback
-	} else {
-		for _, arg := range args {
-			th.Push(arg)
+		setup = func() {
+			for _, arg := range args {
+				th.Push(arg)
+			}
+			cf.NArgs = len(args)
+			th.initCallFrame(cf)
 		}
-		if th.yieldNRet != MultRet {
-			// adjust to the number of results the pending yield expects
-			th.reg.SetTop(th.reg.Top() - len(args) + th.yieldNRet)
+	} else {
+		setup = func() {
+			for _, arg := range args {
+				th.Push(arg)
+			}
+			if th.yieldNRet != MultRet {
+				// adjust to the number of results the pending yield expects
+				th.reg.SetTop(th.reg.Top() - len(args) + th.yieldNRet)
+			}
 		}
 	}
 	top := ls.GetTop()
-	threadRun(th)
+	threadRun(th, setup)
 	haserror := LVIsFalse(ls.Get(top + 1))
 	ret := make([]LValue, 0, ls.GetTop())
 	for idx := top + 2; idx <= ls.GetTop(); idx++ {
